@@ -785,6 +785,14 @@ func (bp *brokerProducer) run() {
 				continue
 			}
 
+			if msg.flags&fin == fin {
+				// a chaser that reaches a broker producer which is not retrying its
+				// partition (it was caught up by the retry loop) must travel back to
+				// the partition producer; it is never data to be buffered
+				bp.parent.retryMessage(msg, ErrShuttingDown)
+				continue
+			}
+
 			if bp.buffer.wouldOverflow(msg) {
 				Logger.Printf("producer/broker/%d maximum request accumulated, waiting for space\n", bp.broker.ID())
 				if err := bp.waitForSpace(msg, false); err != nil {
